@@ -71,7 +71,13 @@ def _(fn):
 @affine_inputs.register(Binary)
 def _(fn):
     if fn.op in (ops.add, ops.sub):
-        return affine_inputs(fn.lhs) | affine_inputs(fn.rhs)
+        # A sum is affine only in inputs that neither side uses non-affinely.
+        lhs_affine = affine_inputs(fn.lhs)
+        rhs_affine = affine_inputs(fn.rhs)
+        non_affine = (_real_inputs(fn.lhs) - lhs_affine) | (
+            _real_inputs(fn.rhs) - rhs_affine
+        )
+        return (lhs_affine | rhs_affine) - non_affine
     if fn.op is ops.truediv:
         return affine_inputs(fn.lhs) - _real_inputs(fn.rhs)
     if isinstance(fn.op, ops.GetitemOp):
@@ -91,6 +97,8 @@ def _(fn):
 
 @affine_inputs.register(Reduce)
 def _(fn):
+    if fn.reduced_vars and fn.op is not ops.add:
+        return frozenset()  # only sums are linear
     return affine_inputs(fn.arg) - fn.reduced_vars
 
 
